@@ -22,6 +22,20 @@ def main() -> int:
 
     spec = job["spec"]
     ctx = Ctx(job["prop"], job["tier"], job["seed"], spec["name"], spec)
+    cover_dir = os.environ.get("VERIF_APICOVER")      # off by default: tools/apicover.py's reach audit
+    entered: set = set()
+    if cover_dir:
+        mon = sys.monitoring
+        lib = os.path.realpath(os.path.join(repo, "btclib")) + os.sep
+
+        def on_start(code, _offset):
+            if os.path.realpath(code.co_filename).startswith(lib):
+                entered.add((os.path.realpath(code.co_filename)[len(lib):], code.co_qualname))
+            return mon.DISABLE
+
+        mon.use_tool_id(mon.COVERAGE_ID, "rv-apicover")
+        mon.register_callback(mon.COVERAGE_ID, mon.events.PY_START, on_start)
+        mon.set_events(mon.COVERAGE_ID, mon.events.PY_START)
     try:
         import btclib
 
@@ -44,6 +58,10 @@ def main() -> int:
             ctx.inconclusive_(f"harness error in shard {spec['name']}: {tb[-700:]}")
     with open(out_path, "w") as f:
         json.dump(ctx.result(), f)
+    if cover_dir:
+        os.makedirs(cover_dir, exist_ok=True)
+        with open(os.path.join(cover_dir, f"{job['prop']}.{spec['name']}.json"), "w") as f:
+            json.dump(sorted(entered), f)
     return 0
 
 
